@@ -211,7 +211,7 @@ def gen_run(rng, pool):
     """tick path + per-bar pool data + a script of operations by phase"""
     sp = pool.tick_spacing
     n = rng.randint(4, 14)
-    c = rng.randint(-2000, 2000) * sp * 10
+    c = rng.randint(-300, 300) * sp * 10
     w = rng.choice((2, 5, 20)) * sp
     ticks = [c + rng.randint(-w, w)]
     for _ in range(n - 1):
@@ -262,7 +262,7 @@ def do_op(market, op, log):
         elif op[0] == "remove":
             if keys:
                 k = keys[op[1] % len(keys)]
-                liq = None if op[2] is None else int(market.positions[k].liquidity * op[2])
+                liq = None if op[2] is None else int(Fraction(market.positions[k].liquidity) * Fraction(op[2]))
                 market.remove_liquidity(k, liq, collect=op[3])
         elif op[0] == "collect":
             if keys:
@@ -447,6 +447,7 @@ def run_runs(ctx: Ctx):
 
 
 def run(ctx: Ctx):
+    U.cap_violations(ctx)
     run_direct(ctx)
     run_runs(ctx)
 
